@@ -107,6 +107,8 @@ static inline std::string jarrd(const double *v, size_t n) { return jarrd(std::v
 static volatile const char *g_phase = "init";
 static char g_phase_buf[256];
 static inline void phase(const char *p) { g_phase = p; }
+// phase that is also written to the event file (lets the driver attribute a hang, which ends in SIGKILL, to an entry point)
+static inline void phase_log(const std::string &p);
 static inline void phasef(const std::string &p) { strncpy(g_phase_buf, p.c_str(), 255); g_phase_buf[255] = 0; g_phase = g_phase_buf; }
 
 static void sig_handler(int sig) {
@@ -135,6 +137,7 @@ static inline void begin_case(long n) {
 	fprintf(o.f, "{\"t\":\"begin\",\"case\":%ld}\n", n); fflush(o.f);
 	phase("case-setup");
 }
+static inline void phase_log(const std::string &p) { phasef(p); Out &o = out(); fprintf(o.f, "{\"t\":\"phase\",\"p\":%s}\n", jstr(p).c_str()); fflush(o.f); }
 static inline void count(const std::string &k, long d = 1) { out().counters[k] += d; }
 static inline void distinct(uint64_t h) { out().distinct.insert(h); }
 static inline void sample(const std::string &json, size_t max = 4) {
